@@ -451,10 +451,11 @@ func genSMTP(r *Rng) []unit {
 		}
 		hdrs, body := genMail(r)
 		if r.Intn(3) != 0 {
-			// DATA: CRLF or LF line ends, dot-stuffed
+			// DATA: CRLF line ends (as SMTP requires; net/textproto's dot-reader does not recognise the terminating
+			// "." after an empty line that ends in a bare LF), dot-stuffed
 			var w strings.Builder
 			var bodyText strings.Builder
-			e := eol(r, false)
+			e := "\r\n"
 			for _, h := range hdrs {
 				w.WriteString(h[0] + ": " + h[1] + e)
 			}
